@@ -1,6 +1,7 @@
 package props
 
 import (
+	"go/token"
 	"fmt"
 	"reflect"
 	"strconv"
@@ -80,7 +81,8 @@ func checkC13(c *fw.Ctx) {
 		for _, b := range read.Blocks {
 			for _, ins := range b.Instrs {
 				if st, isSt := ins.(*ssa.Store); isSt && strings.HasSuffix(fw.Sig(st.Addr), ".fields."+f) {
-					ok = strings.HasPrefix(fw.Sig(st.Val), "gmsl/fclient.ParseAuthorization(") && strings.HasSuffix(fw.Sig(st.Val), idx)
+					vs := fw.Sig(resolveLocalField(st.Val))
+					ok = strings.HasPrefix(vs, "gmsl/fclient.ParseAuthorization(") && strings.HasSuffix(vs, idx)
 				}
 			}
 		}
@@ -203,7 +205,7 @@ func checkC13(c *fw.Ctx) {
 		for _, b := range verify.Blocks {
 			for _, ins := range b.Instrs {
 				if st, isSt := ins.(*ssa.Store); isSt && strings.HasSuffix(fw.Sig(st.Addr), ".fields.Destination") {
-					c.Check(!reachesInstr(mc.(ssa.Instruction), st) || mc.Block() == st.Block() && false, rule, "the verified serialisation includes the destination the request is reported with", c.P.Pos(fw.InstrPos(st)), "", "fields.Destination is assigned after the fields were serialised for verification: a request signed for no destination is verified over \"\" and reported as addressed to this server")
+					c.Check(!reachesFrom(mc.(ssa.Instruction), st), rule, "the verified serialisation includes the destination the request is reported with", c.P.Pos(fw.InstrPos(st)), "", "fields.Destination is assigned after the fields were serialised for verification: a request signed for no destination is verified over \"\" and reported as addressed to this server")
 				}
 			}
 		}
@@ -214,8 +216,51 @@ func checkC13(c *fw.Ctx) {
 			if st, isSt := ins.(*ssa.Store); isSt && strings.HasSuffix(fw.Sig(st.Addr), ".fields.Destination") {
 				nDef++
 				conds := condsOf(b)
-				ok := strings.Contains(conds, "("+dest+` == "")`) && !strings.Contains(conds, "!("+dest+` == "")`) || strings.Contains(conds, "!("+dest+` != "")`)
-				c.Check(ok && fw.Sig(st.Val) == "param:destination", rule, "the default destination is filled in only when the header carries none", c.P.Pos(fw.InstrPos(st)), "", "Destination is overwritten under ["+conds+"]: a request addressed (and signed) to another local name is verified and reported with the default name")
+				construct := "the default destination is filled in only when the header carries none"
+				absent := func(s string) bool {
+					return strings.Contains(s, "("+dest+` == "")`) && !strings.Contains(s, "!("+dest+` == "")`) || strings.Contains(s, "!("+dest+` != "")`)
+				}
+				if absent(conds) && fw.Sig(st.Val) == "param:destination" {
+					c.Ok(rule, construct, c.P.Pos(fw.InstrPos(st)), "")
+					continue
+				}
+				// a store of a value chosen earlier: every alternative is either the name the header
+				// carries (a no-op) or the default chosen when the header carries none
+				rows, err := fw.ValueRows(verify, st.Val, b)
+				verdict, detail := "ok", ""
+				if err != nil || len(rows) == 0 {
+					verdict, detail = "undecided", "the stored destination could not be split into alternatives"
+				}
+				for _, r := range rows {
+					vs := fw.Sig(r.Val)
+					switch {
+					case vs == dest:
+					case vs == "param:destination":
+						for _, term := range r.Cond {
+							okT := false
+							for _, l := range term {
+								if (l.Atom == "("+dest+` == "")` && l.Pos) || (l.Atom == "("+dest+` != "")` && !l.Pos) {
+									okT = true
+								}
+							}
+							if !okT {
+								verdict, detail = "fail", "the default name is stored under ["+fw.DNF{term}.String()+"], not only when the header carries no destination"
+							}
+						}
+					default:
+						if verdict == "ok" {
+							verdict, detail = "undecided", "the stored destination has an alternative the rule does not recognise: "+vs
+						}
+					}
+				}
+				switch verdict {
+				case "ok":
+					c.Ok(rule, construct, c.P.Pos(fw.InstrPos(st)), "")
+				case "fail":
+					c.Fail(rule, construct, c.P.Pos(fw.InstrPos(st)), "Destination is overwritten: "+detail+": a request addressed (and signed) to another local name is verified and reported with the default name")
+				default:
+					c.Undecided(rule, construct, detail)
+				}
 			}
 		}
 	}
@@ -345,4 +390,38 @@ func checkC13(c *fw.Ctx) {
 		}
 		c.Count("bytes_classified", 256)
 	}
+}
+
+// resolveLocalField: a value read from a field of a local struct that is written exactly once
+// (a struct literal used to carry several values) is the value written there.
+func resolveLocalField(v ssa.Value) ssa.Value {
+	for i := 0; i < 4; i++ {
+		u, ok := v.(*ssa.UnOp)
+		if !ok || u.Op != token.MUL {
+			return v
+		}
+		fa, ok := u.X.(*ssa.FieldAddr)
+		if !ok {
+			return v
+		}
+		al, ok := fa.X.(*ssa.Alloc)
+		if !ok {
+			return v
+		}
+		var stored []ssa.Value
+		for _, ref := range *al.Referrers() {
+			if fa2, isFA := ref.(*ssa.FieldAddr); isFA && fa2.Field == fa.Field {
+				for _, r2 := range *fa2.Referrers() {
+					if st, isSt := r2.(*ssa.Store); isSt && st.Addr == ssa.Value(fa2) {
+						stored = append(stored, st.Val)
+					}
+				}
+			}
+		}
+		if len(stored) != 1 {
+			return v
+		}
+		v = stored[0]
+	}
+	return v
 }
